@@ -14,10 +14,13 @@ import PxModel.Reverse
                                 until it is COMPLETE; afterwards every segment goes to
                                 `plugin.on_client_data`)
     proxy/http/proxy/server.py  HttpProxyPlugin.on_request_complete (connect, Via, build,
-                                queue), HttpProxyPlugin.on_client_data (a fresh
-                                `pipeline_request` parser per follow-up request; what is left
-                                in its buffer is discarded with it; connection-upgrade
-                                requests keep the parser and switch to raw passthrough)
+                                queue), HttpProxyPlugin.on_client_data / _handle_pipeline_data
+                                (a fresh `pipeline_request` parser per follow-up request; the
+                                bytes left in its buffer after a complete request are fed to the
+                                next parser in a loop; connection-upgrade requests keep the
+                                parser and switch to raw passthrough); the bytes left in
+                                `handler.request.buffer` after the FIRST request are handed to
+                                `plugin.on_client_data` (fix 84c574d)
 
   It is the relay state machine of `PxModel/Relay.lean` (C01/C07) whose abstract
   input `Tick.app` — "what the application did with this client segment" — is
@@ -66,34 +69,89 @@ def isKeepAlive (p : Parser) : Bool :=
 
 /-! ## forward proxy -/
 
-/-- how an exception raised by `HttpParser.parse` inside `on_client_data` leaves
-    `handle_data`: `HttpProtocolException` is caught there (its `response()` is
-    `None`: nothing queued, `handle_data` returns `True`); anything else escapes
-    `handle_events`. -/
-def parseErrApp : Px.Parser.Err → Relay.AppOut
-  | .httpProtocol => .ok none none true
+/-! ### the follow-up loop shared by the three servers (fix 84c574d)
+
+    ```
+    remaining = raw
+    while remaining is not None and len(remaining) > 0:
+        [bypass: upgraded connection]
+        if self.pipeline_request is None: self.pipeline_request = HttpParser(REQUEST_PARSER)
+        self.pipeline_request.parse(remaining); remaining = None
+        if self.pipeline_request.is_complete:
+            remaining = self.pipeline_request.buffer; self.pipeline_request.buffer = None
+            <server specific: forward / handle_request>          -- may raise
+            self.pipeline_request = None                          -- (forward: kept after an upgrade request)
+    ```
+-/
+
+/-- how `on_client_data` ended: returned; raised an `HttpProtocolException` (caught by
+    `handle_data`, whose `response()` is `None`: nothing queued, `handle_data` returns `True`);
+    let another exception escape `handle_events` -/
+inductive LoopEnd | ok | close | raised
+  deriving DecidableEq, Repr
+
+/-- an exception raised by `HttpParser.parse` -/
+def parseErrEnd : Px.Parser.Err → LoopEnd
+  | .httpProtocol => .close
   | _ => .raised
+
+/-- what the server did with one completed follow-up request -/
+inductive Act (σ : Type)
+  /-- went on; `keep` = what `pipeline_request` is left as -/
+  | next (s : σ) (keep : Option Parser)
+  /-- an exception ended `on_client_data` -/
+  | stop (s : σ) (keep : Option Parser) (e : LoopEnd)
+
+structure Hooks (σ : Type) where
+  /-- before parsing: the data bypasses the parser (upgraded connection); the loop ends -/
+  bypass : σ → Option Parser → Bytes → Option σ
+  /-- a completed request (its leftover already taken out of `buffer`) -/
+  complete : σ → Parser → Act σ
+
+/-- the loop; fuel: every round consumes at least the request line of one request -/
+def pipeLoop {σ : Type} (h : Hooks σ) : Nat → σ → Option Parser → Bytes → σ × Option Parser × LoopEnd
+  | 0, s, pl, _ => (s, pl, .ok)
+  | fuel + 1, s, pl, raw =>
+    if raw.isEmpty then (s, pl, .ok)
+    else match h.bypass s pl raw with
+      | some s' => (s', pl, .ok)
+      | none =>
+        match parse Forward.pcfg (pl.getD (init .request)) raw with
+        | .error e => (s, some (pl.getD (init .request)), parseErrEnd e)
+        | .ok p' =>
+          if p'.state == .complete then
+            match h.complete s { p' with buffer := none } with
+            | .stop s' keep e => (s', keep, e)
+            | .next s' keep =>
+              match p'.buffer with
+              | none => (s', keep, .ok)
+              | some rest => pipeLoop h fuel s' keep rest
+          else (s, some p', .ok)
+
+/-- `HttpProxyPlugin._handle_pipeline_data`: state = the elements queued for the upstream -/
+def fwdHooks (cfg : Forward.Cfg) : Hooks (List Bytes) where
+  bypass := fun s pl raw =>
+    match pl with
+    | some p => if p.state == .complete && isUpgrade p then some (s ++ [raw]) else none
+    | none => none
+  complete := fun s p =>
+    -- (no plugins) del_headers([PROXY_AUTHORIZATION, PROXY_CONNECTION]); upstream.queue(build(...))
+    let q := Forward.treatLater cfg p
+    match Forward.buildFor cfg q with
+    | .error _ => .stop s (some q) .raised
+    | .ok x => .next (s ++ [x]) (if isUpgrade q then some q else none)
 
 /-- `HttpProxyPlugin.on_client_data(raw)` on an established plain-HTTP exchange
     (`self.upstream` set and not closed, `self.request.is_complete`, not a tunnel):
-    the new value of `self.pipeline_request` and what the call did. -/
-def pipeStep (cfg : Forward.Cfg) (pl : Option Parser) (raw : Bytes) : Option Parser × Relay.AppOut :=
-  let fresh (p : Parser) : Option Parser × Relay.AppOut :=
-    match parse Forward.pcfg p raw with
-    | .error e => (some p, parseErrApp e)
-    | .ok p' =>
-      if p'.state == .complete then
-        -- (no plugins) del_headers([PROXY_AUTHORIZATION, PROXY_CONNECTION]); upstream.queue(build(...))
-        let q := Forward.treatLater cfg p'
-        match Forward.buildFor cfg q with
-        | .error _ => (some q, .raised)
-        | .ok x => (if isUpgrade q then some q else none, .ok (some x) none false)
-      else (some p', .ok none none false)
-  match pl with
-  | some p =>
-    -- previous pipelined request was an upgrade request: raw passthrough
-    if p.state == .complete && isUpgrade p then (pl, .ok (some raw) none false) else fresh p
-  | none => fresh (init .request)
+    elements queued for the upstream, the new `self.pipeline_request`, how it ended -/
+def pipeStep (cfg : Forward.Cfg) (pl : Option Parser) (raw : Bytes) : List Bytes × Option Parser × LoopEnd :=
+  pipeLoop (fwdHooks cfg) (raw.length + 1) [] pl raw
+
+/-- what `handle_data` makes of the way `on_client_data` ended, as the relay sees it -/
+def endApp : LoopEnd → Relay.AppOut
+  | .ok => .ok none none false
+  | .close => .ok none none true
+  | .raised => .raised
 
 /-- what the completed first request leads to -/
 inductive FirstOut
@@ -129,8 +187,7 @@ inductive Phase
   /-- `handler.request` not complete yet, `handler.plugin is None` -/
   | first (p : Parser)
   /-- `HttpProxyPlugin` with a connected upstream, plain HTTP; `req` = the completed
-      `handler.request` (what it keeps in `buffer` is never read again),
-      `pipe` = `plugin.pipeline_request` -/
+      `handler.request`, `pipe` = `plugin.pipeline_request` -/
   | http (req : Parser) (pipe : Option Parser)
   /-- … CONNECT tunnel -/
   | tunnel
@@ -149,30 +206,48 @@ structure FSt where
 def finit (maxSend : Nat) : FSt :=
   { phase := .first (init .request), rs := Relay.st0 .local maxSend [] [] false false, connects := [] }
 
-/-- effect of one client segment `raw` handed to `handle_data`: next phase, the
-    `Tick.app` value the relay sees, and — when the first request completes with a
-    connected upstream — the exchange kind and initial upstream queue to switch to
-    once the tick is over, plus the connect attempt made. -/
-def appOf (cfg : Forward.Cfg) (connectOk : Bool) (ph : Phase) (raw : Bytes) :
-    Phase × Relay.AppOut × Option (Relay.Kind × List Bytes) × Option Connect.Addr :=
+/-- effect of one client segment handed to `handle_data` -/
+structure AppRes where
+  phase : Phase
+  /-- the `Tick.app` value the relay sees (nothing for the upstream: see `ups`) -/
+  app : Relay.AppOut
+  /-- the first request completed with a connected upstream: exchange kind to switch to -/
+  kind : Option Relay.Kind
+  /-- elements queued for the upstream by this call, in order -/
+  ups : List Bytes
+  /-- the connect attempt made -/
+  conn : Option Connect.Addr
+  deriving DecidableEq, Repr
+
+def appOf (cfg : Forward.Cfg) (connectOk : Bool) (ph : Phase) (raw : Bytes) : AppRes :=
   match ph with
   | .first p =>
     match parse Forward.pcfg p raw with
     | .error _ =>
       -- BAD_REQUEST queued, HttpProtocolException raised and caught: handle_data returns True
-      (.done, .ok none (some Px.Gen.pkt_BAD_REQUEST_RESPONSE_PKT) true, none, none)
+      ⟨.done, .ok none (some Px.Gen.pkt_BAD_REQUEST_RESPONSE_PKT) true, none, [], none⟩
     | .ok p' =>
-      if p'.state != .complete then (.first p', .ok none none false, none, none)
+      if p'.state != .complete then ⟨.first p', .ok none none false, none, [], none⟩
       else match firstComplete cfg connectOk p' with
-        | .established a x => (.http p' none, .ok none none false, some (.http, [x]), some a)
-        | .tunnel a => (.tunnel, .ok none (some Relay.ack) false, some (.tunnel, []), some a)
-        | .reject resp a => (.done, .ok none resp true, none, a)
-        | .raised => (.done, .raised, none, none)
+        | .established a x =>
+          -- `on_request_complete()` returned False: what followed the request in this segment
+          -- is handed to `plugin.on_client_data`
+          match p'.buffer with
+          | none => ⟨.http p' none, .ok none none false, some .http, [x], some a⟩
+          | some rest =>
+            let r := pipeStep cfg none rest
+            ⟨.http { p' with buffer := none } r.2.1, endApp r.2.2, some .http, x :: r.1, some a⟩
+        | .tunnel a =>
+          -- … for a tunnel `on_client_data` queues it raw for the upstream
+          ⟨.tunnel, .ok none (some Relay.ack) false, some .tunnel,
+            (match p'.buffer with | some rest => [rest] | none => []), some a⟩
+        | .reject resp a => ⟨.done, .ok none resp true, none, [], a⟩
+        | .raised => ⟨.done, .raised, none, [], none⟩
   | .http req pipe =>
     let r := pipeStep cfg pipe raw
-    (.http req r.1, r.2, none, none)
-  | .tunnel => (.tunnel, .ok none none false, none, none)     -- Relay queues raw itself
-  | .done => (.done, .ok none none false, none, none)
+    ⟨.http req r.2.1, endApp r.2.2, none, r.1, none⟩
+  | .tunnel => ⟨.tunnel, .ok none none false, none, [], none⟩     -- Relay queues raw itself
+  | .done => ⟨.done, .ok none none false, none, [], none⟩
 
 /-- the segment a `recv` outcome hands to `handle_data`, if any -/
 def segOf : RecvOut → Option Bytes
@@ -191,16 +266,16 @@ def fstepWith (masked : Bool) (cfg : Forward.Cfg) (connectOk : Bool) (s : FSt) (
     ({ s with rs := r.1 }, r.2)
   | some raw =>
     let a := appOf cfg connectOk s.phase raw
-    let t' := { t with app := a.2.1 }
+    let t' := { t with app := a.app }
     let r := if masked then Relay.step s.rs t' else Relay.tick s.rs t'
     let consumed := r.1.recvC.length != s.rs.recvC.length && !(s.rs.kind == .http && s.rs.upstream.closed)
     if !consumed then ({ s with rs := r.1 }, r.2)
     else
-      let rs' := match a.2.2.1 with
-        | some (k, ub) => { r.1 with kind := k, upstream := { buffer := ub } }
-        | none => r.1
-      ({ phase := a.1, rs := rs',
-         connects := s.connects ++ (match a.2.2.2 with | some x => [x] | none => []) }, r.2)
+      -- nothing after the client read touches the upstream queue in this round
+      ({ phase := a.phase,
+         rs := { r.1 with kind := a.kind.getD r.1.kind,
+                          upstream := { r.1.upstream with buffer := r.1.upstream.buffer ++ a.ups } },
+         connects := s.connects ++ (match a.conn with | some x => [x] | none => []) }, r.2)
 
 /-- one executor round -/
 def fstep (cfg : Forward.Cfg) (connectOk : Bool) (s : FSt) (t : Relay.Tick) : FSt × Relay.Ret :=
@@ -249,8 +324,6 @@ structure WSt where
   request : Parser := init .request
   /-- `plugin.route`: index of the plugin chosen for the FIRST request -/
   route : Option Nat := none
-  /-- `plugin.pipeline_request` -/
-  pipe : Option Parser := none
   /-- everything queued for the client, in order -/
   out : List Bytes := []
   /-- `handle_request` invocations: (plugin index, request as handed over) -/
@@ -262,45 +335,57 @@ def isWebRequest (p : Parser) : Bool :=
   (p.version == some Px.Gen.http11 || p.version == some Px.Gen.http10) && p.url.isSome &&
     p.host.isNone && (p.url.bind (·.hostname)).isNone
 
+/-- `HttpWebServerPlugin.on_client_data`'s loop body for one completed follow-up request:
+    ALWAYS the first request's route; a request that is not keep-alive ends the connection -/
+def webHooks (cfg : WCfg) : Hooks WSt where
+  bypass := fun _ _ _ => none
+  complete := fun s p =>
+    let k := s.route.getD 0
+    let s' := { s with out := s.out ++ [cfg.respond k p], calls := s.calls ++ [(k, p)] }
+    if !isKeepAlive p then .stop s' (some p) .close else .next s' none
+
+/-- how `on_client_data` ended, as a phase -/
+def endPhase (ph : WPhase) : LoopEnd → WPhase
+  | .ok => ph
+  | .close => if ph == .routed then .closing else ph
+  | .raised => .raised
+
+/-- `HttpWebServerPlugin.on_client_data(raw)` with `self.route` set (`route.on_client_data` returns
+    raw: base class; not switched to websocket); second component: `plugin.pipeline_request` -/
+def wdata (cfg : WCfg) (s : WSt) (pl : Option Parser) (raw : Bytes) : WSt × Option Parser :=
+  if !isKeepAlive s.request then (s, pl)
+  else
+    let r := pipeLoop (webHooks cfg) (raw.length + 1) s pl raw
+    ({ r.1 with phase := endPhase r.1.phase r.2.2 }, r.2.1)
+
 /-- the handler is given one more client segment (web server enabled, proxy plugin too) -/
-def wseg (cfg : WCfg) (s : WSt) (raw : Bytes) : WSt :=
+def wseg (cfg : WCfg) (st : WSt × Option Parser) (raw : Bytes) : WSt × Option Parser :=
+  let s := st.1
   match s.phase with
   | .first =>
     match parse Forward.pcfg s.request raw with
-    | .error _ => { s with phase := .closing, out := s.out ++ [cfg.badRequest] }
+    | .error _ => ({ s with phase := .closing, out := s.out ++ [cfg.badRequest] }, st.2)
     | .ok p =>
       let s := { s with request := p }
-      if p.state != .complete then s
-      else if !isWebRequest p || isWebsocketUpgrade p then { s with phase := .other }
-      else if !Px.Url.utf8Valid (webPath p) then { s with phase := .raised }      -- text_(path)
+      if p.state != .complete then (s, st.2)
+      else if !isWebRequest p || isWebsocketUpgrade p then ({ s with phase := .other }, st.2)
+      else if !Px.Url.utf8Valid (webPath p) then ({ s with phase := .raised }, st.2)      -- text_(path)
       else match tryRoute cfg (webPath p) with
         | some k =>
-          { s with phase := .routed, route := some k, out := s.out ++ [cfg.respond k p],
-                   calls := s.calls ++ [(k, p)] }
-        | none => { s with phase := .closing, out := s.out ++ [cfg.notFound] }
-  | .routed =>
-    match s.route with
-    | none => s
-    | some k =>
-      -- `route.on_client_data` returns raw (base class); not switched to websocket
-      if !isKeepAlive s.request then s
-      else
-        let p0 := s.pipe.getD (init .request)
-        match parse Forward.pcfg p0 raw with
-        | .error .httpProtocol => { s with phase := .closing, pipe := some p0 }
-        | .error _ => { s with phase := .raised, pipe := some p0 }
-        | .ok p =>
-          if p.state == .complete then
-            -- ALWAYS the first request's route
-            let s := { s with out := s.out ++ [cfg.respond k p], calls := s.calls ++ [(k, p)] }
-            if !isKeepAlive p then { s with phase := .closing, pipe := some p }
-            else { s with pipe := none }
-          else { s with pipe := some p }
-  | _ => s
+          let s1 := { s with phase := .routed, route := some k, out := s.out ++ [cfg.respond k p],
+                             calls := s.calls ++ [(k, p)] }
+          -- `on_request_complete()` returned False: what followed the request in this segment is
+          -- handed to `plugin.on_client_data`
+          match p.buffer with
+          | none => (s1, st.2)
+          | some rest => wdata cfg { s1 with request := { p with buffer := none } } st.2 rest
+        | none => ({ s with phase := .closing, out := s.out ++ [cfg.notFound] }, st.2)
+  | .routed => wdata cfg s st.2 raw
+  | _ => st
 
-def wrun (cfg : WCfg) (s : WSt) : List Bytes → WSt
-  | [] => s
-  | x :: xs => wrun cfg (wseg cfg s x) xs
+def wrun (cfg : WCfg) (st : WSt × Option Parser) : List Bytes → WSt × Option Parser
+  | [] => st
+  | x :: xs => wrun cfg (wseg cfg st x) xs
 
 /-! ## reverse proxy -/
 
@@ -321,7 +406,6 @@ structure RCfg where
 structure RSt where
   phase : WPhase := .first
   request : Parser := init .request
-  pipe : Option Parser := none
   /-- `ReverseProxy` state: client queue, `self.upstream` (ONE connection), connects -/
   rv : Px.Reverse.St := {}
   /-- ghost: bytes written so far to the i-th upstream connection ever opened -/
@@ -360,52 +444,65 @@ def rfirst (cfg : RCfg) (s : RSt) (p : Parser) : RSt :=
     if s1.phase == .first then { s1 with phase := .routed } else s1
   else { s with rv := r.st, phase := if r.exc.isSome then .raised else .closing }
 
-def rstep (cfg : RCfg) (s : RSt) (e : REv) : RSt :=
+/-- one completed follow-up request: `self.route.handle_request(self.pipeline_request)` routes again
+    and opens a NEW upstream -/
+def revHooks (cfg : RCfg) : Hooks RSt where
+  bypass := fun _ _ _ => none
+  complete := fun s p =>
+    let r := Px.Reverse.handleRequest cfg.rv (cfg.matchPat (revPath p)) (fun _ => 0) true cfg.table p s.rv
+    let s1 := afterHandle s r
+    if s1.phase == .raised then .stop s1 (some p) .raised
+    else if s1.phase != .routed then .stop s1 (some p) .close
+    else if !isKeepAlive p then .stop { s1 with phase := .closing } (some p) .close
+    else .next s1 none
+
+/-- `HttpWebServerPlugin.on_client_data(raw)` in front of `ReverseProxy`
+    (`route.on_client_data` returns raw: the first request is not a websocket upgrade) -/
+def rdata (cfg : RCfg) (s : RSt) (pl : Option Parser) (raw : Bytes) : RSt × Option Parser :=
+  if !isKeepAlive s.request then (s, pl)
+  else
+    let r := pipeLoop (revHooks cfg) (raw.length + 1) s pl raw
+    ({ r.1 with phase := endPhase r.1.phase r.2.2 }, r.2.1)
+
+def rstep (cfg : RCfg) (st : RSt × Option Parser) (e : REv) : RSt × Option Parser :=
+  let s := st.1
   -- closing (flush, then close; or already torn down), raised, other: not followed further
-  if s.phase != .first && s.phase != .routed then s else
+  if s.phase != .first && s.phase != .routed then st else
   match e with
   | .cseg raw =>
     match s.phase with
     | .first =>
       match parse Forward.pcfg s.request raw with
-      | .error _ => { s with phase := .closing, rv := { s.rv with client := s.rv.client.queue cfg.badRequest } }
+      | .error _ =>
+        ({ s with phase := .closing, rv := { s.rv with client := s.rv.client.queue cfg.badRequest } }, st.2)
       | .ok p =>
         let s := { s with request := p }
-        if p.state != .complete then s
-        else if !isWebRequest p || isWebsocketUpgrade p then { s with phase := .other }
-        else rfirst cfg s p
-    | .routed =>
-      -- `route.on_client_data` returns raw (the first request is not a websocket upgrade)
-      if !isKeepAlive s.request then s
-      else
-        let p0 := s.pipe.getD (init .request)
-        match parse Forward.pcfg p0 raw with
-        | .error .httpProtocol => { s with phase := .closing, pipe := some p0 }
-        | .error _ => { s with phase := .raised, pipe := some p0 }
-        | .ok p =>
-          if p.state == .complete then
-            -- `self.route.handle_request(self.pipeline_request)`: routes again, opens a NEW upstream
-            let r := Px.Reverse.handleRequest cfg.rv (cfg.matchPat (revPath p)) (fun _ => 0) true cfg.table p s.rv
-            let s1 := afterHandle s r
-            if s1.phase != .routed then { s1 with pipe := some p }
-            else if !isKeepAlive p then { s1 with phase := .closing, pipe := some p }
-            else { s1 with pipe := none }
-          else { s with pipe := some p }
-    | _ => s
+        if p.state != .complete then (s, st.2)
+        else if !isWebRequest p || isWebsocketUpgrade p then ({ s with phase := .other }, st.2)
+        else
+          let s1 := rfirst cfg s p
+          -- leftover of the segment: handed to `on_client_data` when `on_request_complete()` returned False
+          match p.buffer with
+          | none => (s1, st.2)
+          | some rest =>
+            if s1.phase == .routed then rdata cfg { s1 with request := { p with buffer := none } } st.2 rest
+            else (s1, st.2)
+    | .routed => rdata cfg s st.2 raw
+    | _ => st
   | .uflush =>
     match s.rv.upstream, s.current with
     | some c, some i =>
-      { s with rv := { s.rv with upstream := some { c with buffer := [] } },
-               wrote := s.wrote.modify i (· ++ c.buffer.flatten) }
-    | _, _ => s
+      ({ s with rv := { s.rv with upstream := some { c with buffer := [] } },
+                wrote := s.wrote.modify i (· ++ c.buffer.flatten) }, st.2)
+    | _, _ => st
   | .useg i raw =>
     -- only `self.upstream` is registered with the selector and read
-    if raw.isEmpty then s
-    else if s.current == some i then { s with rv := Px.Reverse.handleUpstreamData s.rv raw }
-    else s
+    if raw.isEmpty then st
+    else if s.current == some i then ({ s with rv := Px.Reverse.handleUpstreamData s.rv raw }, st.2)
+    else st
 
-def rrun (cfg : RCfg) (s : RSt) : List REv → RSt
-  | [] => s
-  | e :: es => rrun cfg (rstep cfg s e) es
+def rrun (cfg : RCfg) (st : RSt × Option Parser) : List REv → RSt × Option Parser
+  | [] => st
+  | e :: es => rrun cfg (rstep cfg st e) es
 
 end Px.Persist
